@@ -307,6 +307,7 @@ def tier_and_seed(argv):
     seed = int(os.environ.get('VERIF_SEED', '0') or 0)
     # global deadline: a check that cannot finish is inconclusive (exit 2), never silently a pass
     deadline = int(os.environ.get('VERIF_DEADLINE_S', '0') or 0) or (2400 if a.tier == 'quick' else 6 * 3600)
+    os.environ['VERIF_TIER'] = a.tier
     if a.tier == 'thorough':
         os.environ.setdefault('VERIF_CROSSCHECK', '1')
     pid = os.path.basename(sys.argv[0]).split('.')[0].upper()
